@@ -133,6 +133,17 @@ func (f *failSet) add(sig, detail string) {
 	}
 }
 
+// note records an observation that is not a violation of the property (counted, never reported as a failure)
+func (f *failSet) note(sig, detail string) {
+	f.mu.Lock()
+	defer f.mu.Unlock()
+	if f.seen == nil {
+		f.seen = map[string]int{}
+	}
+	f.seen["note:"+sig]++
+	_ = detail
+}
+
 func sortedHex(ids [][]byte) []string {
 	r := make([]string, len(ids))
 	for i, id := range ids {
